@@ -468,6 +468,12 @@ def check(prop, tier, seed):
                 if rc == 1:
                     violations.append((w['site'], 'known-witness-changed-class:' + k['id'], wp, out))
                 break
+        elif w and 'registration' in w:
+            src = '#include "%s"\nstatic void vf_reg()\n{\n    %s;\n}\nVF_REGISTER(vf_reg)\n' % (w['header'], w['registration'])
+            fn = os.path.join(outdir, 'witness-%s.cpp' % k['id'])
+            open(fn, 'w').write(src)
+            rr = run(cfg_cmd(w.get('cfg', 'gxx')) + list(w.get('flags', [])) + ['-fsyntax-only', fn])
+            still = rr.returncode != 0
         elif w and 'extra' in plan and 'witness' in plan:
             still = plan['witness'](k, dict(outdir=outdir, units=units, known_tsv=known_tsv))
         if still or hits > 0:
